@@ -314,6 +314,10 @@ mutual
     | .lit c => (env, .ok [[{ value := c, origin := .literal, isQuoted := false, isQuoting := false }]])
     | .bs c => (env, .ok [[quoteChar '\\', quotedLit c]])
     | .param p m => posixParam env willSplit p (resolve env p) m
+    | .cmd _ c =>
+      -- XCU 2.6.3: the standard output of the command, "removing sequences of one or more <newline> characters at the
+      -- end of the substitution"; one field of expansion results (split where the context splits)
+      (env, .ok [toField (stripTrailingNewlines (env.cmdOut c))])
     | .arith t =>
       -- the content is expanded like the content of a here-document: one string, no field splitting
       match (if t.isNil then (env, .ok [[]]) else posixTextGo env true [] t) with
@@ -439,6 +443,7 @@ def TextUnit.plain : TextUnit → Option Char
   | .lit c => some c
   | .bs c => some c
   | .param _ _ => none
+  | .cmd _ _ => none
   | .arith _ => none
 
 def Text.plain : Text → Option (List Char)
